@@ -7,7 +7,9 @@ import (
 	"context"
 	"errors"
 	"math/big"
+	"sort"
 	"strings"
+	"sync"
 	"time"
 
 	"github.com/ChainSafe/sygma-relayer/chains/evm/calls/consts"
@@ -235,6 +237,81 @@ func (c04DepositHandler) HandleDeposit(sourceID, destID uint8, nonce uint64, res
 	return message.NewMessage(sourceID, destID, nil, messageID, "t", timestamp), nil
 }
 
+// c04Gate: the head query of the retry message handlers blocks until released; the first caller is A, the second B.
+type c04Gate struct {
+	mu      sync.Mutex
+	n       int
+	heads   [2]string
+	entered chan int
+	release [2]chan struct{}
+}
+
+func newC04Gate(a, b string) *c04Gate {
+	return &c04Gate{heads: [2]string{a, b}, entered: make(chan int, 2), release: [2]chan struct{}{make(chan struct{}), make(chan struct{})}}
+}
+func (g *c04Gate) enter() int {
+	g.mu.Lock()
+	i := g.n
+	g.n++
+	g.mu.Unlock()
+	if i > 1 {
+		i = 1
+	}
+	g.entered <- i
+	<-g.release[i]
+	return i
+}
+
+type c04GateEvm struct{ g *c04Gate }
+
+func (c c04GateEvm) LatestBlock() (*big.Int, error) { return c04Latest{c.g.heads[c.g.enter()]}.LatestBlock() }
+
+type c04GateBtc struct{ g *c04Gate }
+
+func (c c04GateBtc) GetBestBlockHash() (*chainhash.Hash, error) {
+	i := c.g.enter()
+	if c.g.heads[i] == "E" {
+		return nil, errRPC
+	}
+	return &chainhash.Hash{byte(i + 1)}, nil
+}
+func (c c04GateBtc) GetBlockVerboseTx(h *chainhash.Hash) (*btcjson.GetBlockVerboseTxResult, error) {
+	return c04BtcFetcher{c.g.heads[int(h[0])-1]}.GetBlockVerboseTx(h)
+}
+
+type c04GateSub struct{ g *c04Gate }
+
+func (c c04GateSub) GetFinalizedHead() (types.Hash, error) {
+	i := c.g.enter()
+	if c.g.heads[i] == "E" {
+		return types.Hash{}, errRPC
+	}
+	return types.Hash{byte(i + 1)}, nil
+}
+func (c c04GateSub) GetBlock(h types.Hash) (*types.SignedBlock, error) {
+	return (&c04SubConn{fin: c.g.heads[int(h[0])-1]}).GetBlock(h)
+}
+func (c c04GateSub) GetBlockLatest() (*types.SignedBlock, error) { return c.GetBlock(types.Hash{1}) }
+
+// c04SyncProcessor records which heights were processed (used from two goroutines)
+type c04SyncProcessor struct {
+	mu    sync.Mutex
+	calls []string
+}
+
+func (p *c04SyncProcessor) ProcessDeposits(s, e *big.Int) (map[uint8][]*message.Message, error) {
+	p.mu.Lock()
+	p.calls = append(p.calls, s.String()+"."+e.String())
+	p.mu.Unlock()
+	return map[uint8][]*message.Message{}, nil
+}
+
+type c04SyncBtcProcessor struct{ p *c04SyncProcessor }
+
+func (p c04SyncBtcProcessor) ProcessDeposits(b *big.Int) (map[uint8][]*message.Message, error) {
+	return p.p.ProcessDeposits(b, b)
+}
+
 func retryMsg(h string) *message.Message {
 	return message.NewMessage(2, 1, retry.RetryMessageData{SourceDomainID: 1, DestinationDomainID: 2,
 		BlockHeight: bigArg(h), ResourceID: [32]byte{1}}, "retry-1-2", retry.RetryMessageType, timeZero())
@@ -363,6 +440,48 @@ func init() {
 			res = "proc:" + itoa(n)
 		}
 		return "reads=" + joinOr(node.reads, ",") + ";" + res
+	}
+	// retrypair <kind> <latestA> <hA> <latestB> <hB> <conf> <order AB|BA>  =>  A:<ok|err>#B:<ok|err>#proc:<s.e,…>
+	//   TWO retry requests handled concurrently by the ONE retry message handler of the chain (it is shared by all
+	//   deliveries). Sequencing is deterministic: A runs up to its head query and blocks there, then B does, then they
+	//   are released in <order>, each running to completion before the other is released.
+	ops["C04.retrypair"] = func(a []string) string {
+		g := newC04Gate(a[1], a[3])
+		sp := &c04SyncProcessor{}
+		ch := make(chan []*message.Message, 8)
+		var handle func(*message.Message) error
+		switch a[0] {
+		case "evm":
+			h := evmExecutor.NewRetryMessageHandler(sp, c04GateEvm{g}, c04PropStore{}, bigArg(a[5]), ch)
+			handle = func(m *message.Message) error { _, err := h.HandleMessage(m); return err }
+		case "btc":
+			h := btcExecutor.NewRetryMessageHandler(c04SyncBtcProcessor{sp}, c04GateBtc{g}, bigArg(a[5]), c04PropStore{}, ch)
+			handle = func(m *message.Message) error { _, err := h.HandleMessage(m); return err }
+		case "sub":
+			h := subExecutor.NewRetryMessageHandler(sp, c04GateSub{g}, c04PropStore{}, ch)
+			handle = func(m *message.Message) error { _, err := h.HandleMessage(m); return err }
+		}
+		res := [2]string{"?", "?"}
+		done := make(chan int, 2)
+		start := func(i int, h string) {
+			go func() {
+				if handle(retryMsg(h)) != nil {
+					res[i] = "err"
+				} else {
+					res[i] = "ok"
+				}
+				done <- i
+			}()
+			<-g.entered // it is now blocked inside its head query
+		}
+		start(0, a[2])
+		start(1, a[4])
+		for _, c := range a[6] {
+			close(g.release[int(c-'A')])
+			<-done
+		}
+		sort.Strings(sp.calls)
+		return "A:" + res[0] + "#B:" + res[1] + "#proc:" + joinOr(sp.calls, ",")
 	}
 	// seq <kind> <conf> <k> <steps>  =>  outputs of the steps, '|'-separated.
 	// All steps run against ONE set of objects wired like app.Run wires them: the chain config's BlockConfirmations
@@ -604,6 +723,24 @@ func genC04(g *G) {
 	for _, fl := range []string{"-", "g", "t", "w", "u", "n", "c", "u,u", "n,g", "t,t,t", "u,n,u"} {
 		for _, lh := range [][2]string{{"13", "10"}, {"12", "10"}, {"200", "150"}, {"150", "150"}, {"18446744073709551716", "18446744073709551711"}} {
 			g.Emit("evmretryreal", lh[0], lh[1], "2", fl)
+		}
+	}
+	// two retries in flight on the one shared handler: all boundary combinations, both release orders
+	for _, kind := range []string{"evm", "btc", "sub"} {
+		for _, order := range []string{"AB", "BA"} {
+			for _, hA := range []int64{5, 20} {
+				for _, hB := range []int64{5, 20, 40} {
+					for dA := int64(-1); dA <= 1; dA++ {
+						for dB := int64(-1); dB <= 1; dB++ {
+							conf := int64(2)
+							if kind == "sub" {
+								conf = 0
+							}
+							g.Emit("retrypair", kind, itoa64(hA+conf+dA), itoa64(hA), itoa64(hB+conf+dB), itoa64(hB), itoa64(conf), order)
+						}
+					}
+				}
+			}
 		}
 	}
 	// sequences on shared objects (the confirmations *big.Int is shared like in app.Run): retries of various heights,
